@@ -53,7 +53,7 @@ def main():
          "engines": [{"name": "pyvc", "path": "pyvc/", "serves_properties": sorted(CLAIMS),
                       "kind_free_text": "own verification-condition generator: symbolic execution of the real Python AST against sidecar contracts, z3 / cvc5 back ends, counter-model replay on the real code"}],
          "checks": [], "not_applicable": [],
-         "notes": "Known findings and fixed defects: known_findings.json. Three genuine defects were repaired in /repo with `fix:` commits (Power base-one shortcut; NthRoot repr; Point coordinate named self); one (NthRoot-of-NthPower rewrite) is recorded as a known finding because the test-suite pins it. Engine self-tests: ./check selftest (73 stored mutants), ./check benign (16 behaviour-preserving refactorings), seeded/SUMMARY.md (92 independently written breaking changes in six waves: 91 caught by some check - the exception is a pure floating-point rounding effect -, 89 by the check of their own property; per-seed results in seeded/SUMMARY.md), ./check lemmas (Lean, 84 theorems), ./check speccheck."}
+         "notes": "Known findings and fixed defects: known_findings.json. Three genuine defects were repaired in /repo with `fix:` commits (Power base-one shortcut; NthRoot repr; Point coordinate named self); one (NthRoot-of-NthPower rewrite) is recorded as a known finding because the test-suite pins it. Engine self-tests: ./check selftest (73 stored mutants), ./check benign (20 behaviour-preserving refactorings), seeded/SUMMARY.md (92 independently written breaking changes in six waves: 91 caught by some check - the exception is a pure floating-point rounding effect -, 89 by the check of their own property; per-seed results in seeded/SUMMARY.md), ./check lemmas (Lean, 84 theorems), ./check speccheck."}
     all_ids = [f"C{i:02d}" for i in range(1, 19)]
     for pid in all_ids:
         if pid in CLAIMS:
